@@ -4,6 +4,7 @@ package main
 
 import (
 	"fmt"
+	"math/big"
 	"strings"
 	"time"
 )
@@ -104,6 +105,47 @@ func c08Gen(r *Rand, tier string) []string {
 		}
 		el, ks := g.ctx()
 		add(r.Bool(), sb.String(), el, ks)
+	}
+	// 3b. size guards: helpers that multiply or add a length and a count/index (repeat, substr, @slice, tab …)
+	// get patterns of every small length with counts at the wrap-around points of the int64 product/sum
+	// (2^63/len, 2^64/len, the cap/len, each ±1), as constants and as match groups
+	for plen := 1; plen <= 9; plen++ {
+		pat := strings.Repeat("a", plen)
+		if plen == 3 {
+			pat = "\xe2\x82\xac" // one 3-byte rune
+		}
+		two63 := new(big.Int).Lsh(big.NewInt(1), 63)
+		two64 := new(big.Int).Lsh(big.NewInt(1), 64)
+		var counts []string
+		for _, base := range []*big.Int{two63, two64, big.NewInt(1048576), new(big.Int).Lsh(big.NewInt(1), 62)} {
+			q := new(big.Int).Div(base, big.NewInt(int64(plen)))
+			for d := int64(-1); d <= 1; d++ {
+				v := new(big.Int).Add(q, big.NewInt(d))
+				if v.IsInt64() {
+					counts = append(counts, v.String())
+				}
+			}
+		}
+		counts = append(counts, "9223372036854775807", "4611686018427387904")
+		for _, cnt := range counts {
+			for _, fn := range []string{"repeat"} {
+				if r.Bool() {
+					add(r.Bool(), "{"+fn+" "+quoteArg(pat)+" "+cnt+"}", nil, nil)
+				} else {
+					add(r.Bool(), "{"+fn+" {0} {1}}", []string{pat, cnt}, nil)
+				}
+			}
+		}
+		if tier == "thorough" || plen%3 == 1 {
+			for _, cnt := range counts {
+				add(r.Bool(), "{substr {0} 1 "+cnt+"}", []string{pat + pat}, nil)
+				add(r.Bool(), "{substr {0} "+cnt+" 2}", []string{pat + pat}, nil)
+				add(r.Bool(), "{@slice {@ a b c} 1 "+cnt+"}", nil, nil)
+				add(r.Bool(), "{@slice {@ a b c} "+cnt+"}", nil, nil)
+				add(r.Bool(), "{@select {@ a b c} "+cnt+"}", nil, nil)
+				add(r.Bool(), "{select {0} "+cnt+"}", []string{"a b c"}, nil)
+			}
+		}
 	}
 	// 4. the family generators (boundary values per helper)
 	for _, gen := range exprGens {
